@@ -1125,3 +1125,92 @@ Theorem C02_solve_skip_some_zero_refuted :
     SolveSkip_proofs.skip_cex_A SolveSkip_proofs.skip_cex_B = [[false; false]; [true; false]].
 Proof. exact SolveSkip_proofs.solve_skip_some_zero_refuted. Qed.
 Print Assumptions C02_solve_skip_some_zero_refuted.
+
+(** * Tolerance: "with an error that vanishes as tol does" at the slowest converging grammars.
+    The CRITICAL scalar system x = c x^2 + a x + b with (1-a)^2 = 4 c b (e.g. S -> 1/2 S S | 1/2;
+    Model/Critical.v, Proofs/Critical_proofs.v): F'(xs) = 1, no contraction factor exists, but the
+    residual is exactly c times the square of the error, so the stopping test F(x) - x <= tol of
+    fixed_point / newton bounds the error by sqrt(tol / c).  (For F'(xs) < 1 the bounds are
+    C11_fixed_point_stop_bound, C11_fixed_point_stop_bound_quadratic, C11_newton_stop_bound; the
+    harness judges every rung of a tolerance ladder with the corresponding check function.) *)
+Require Fggs.Model.Magnitude Fggs.Model.Critical Fggs.Proofs.Critical_proofs.
+
+Theorem C02_critical_residual :
+  forall a b c x : Q, (0 < c)%Q -> ((1 - a) * (1 - a) == 4 * c * b)%Q ->
+    (Magnitude.qF a b c x - x == c * (Critical.crit_xs a c - x) * (Critical.crit_xs a c - x))%Q.
+Proof. exact Critical_proofs.crit_residual. Qed.
+Print Assumptions C02_critical_residual.
+
+Theorem C02_critical_stop_bound :
+  forall a b c x tol : Q, (0 < c)%Q -> ((1 - a) * (1 - a) == 4 * c * b)%Q ->
+    (Magnitude.qF a b c x - x <= tol)%Q ->
+    (c * (Critical.crit_xs a c - x) * (Critical.crit_xs a c - x) <= tol)%Q.
+Proof. exact Critical_proofs.crit_stop_bound. Qed.
+Print Assumptions C02_critical_stop_bound.
+
+(** the Kleene iterates increase and stay below the double root *)
+Theorem C02_critical_iterates_below :
+  forall a b c k, (0 <= a)%Q -> (a < 1)%Q -> (0 < c)%Q -> ((1 - a) * (1 - a) == 4 * c * b)%Q ->
+    (Magnitude.qiter a b c k <= Critical.crit_xs a c)%Q /\ (Magnitude.qiter a b c k <= Magnitude.qiter a b c (S k))%Q.
+Proof. exact Critical_proofs.crit_iter_below. Qed.
+Print Assumptions C02_critical_iterates_below.
+
+(** Newton's step halves the error at a critical system (linear convergence only) *)
+Theorem C02_critical_newton_halves :
+  forall a b c x : Q, (0 < c)%Q -> ((1 - a) * (1 - a) == 4 * c * b)%Q -> (x < Critical.crit_xs a c)%Q ->
+    (Critical.crit_xs a c - (x + (Magnitude.qF a b c x - x) / (1 - Magnitude.qL a c x)) == (Critical.crit_xs a c - x) / 2)%Q.
+Proof. exact Critical_proofs.crit_newton_halves. Qed.
+Print Assumptions C02_critical_newton_halves.
+
+(** the check function accepts whatever lies between an iterate passing the stopping test and the
+    solution (fixed_point returns the iterate, newton something between F(iterate) and xs) ... *)
+Theorem C02_crit_check_sound :
+  forall a b c tol delta x obs : Q,
+    (0 <= a)%Q -> (a < 1)%Q -> (0 < c)%Q -> (0 <= tol)%Q -> (0 <= delta)%Q -> ((1 - a) * (1 - a) == 4 * c * b)%Q ->
+    (x <= obs)%Q -> (obs <= Critical.crit_xs a c)%Q -> (Magnitude.qF a b c x - x <= tol)%Q ->
+    Critical.crit_check ((a, b, c), tol, delta, obs) = 0.
+Proof. exact Critical_proofs.crit_check_sound. Qed.
+Print Assumptions C02_crit_check_sound.
+
+Theorem C02_crit_check_accepts_fixed_point :
+  forall a b c tol k, (0 <= a)%Q -> (a < 1)%Q -> (0 < c)%Q -> (0 <= tol)%Q -> ((1 - a) * (1 - a) == 4 * c * b)%Q ->
+    (Magnitude.qiter a b c (S k) - Magnitude.qiter a b c k <= tol)%Q ->
+    Critical.crit_check ((a, b, c), tol, 0%Q, Magnitude.qiter a b c k) = 0.
+Proof. exact Critical_proofs.crit_check_accepts_fixed_point. Qed.
+Print Assumptions C02_crit_check_accepts_fixed_point.
+
+(** ... accepts only values whose error (beyond the rounding allowance) squared is at most tol/c ... *)
+Theorem C02_crit_check_accepts_only :
+  forall a b c tol delta obs, Critical.crit_check ((a, b, c), tol, delta, obs) = 0 ->
+    (obs <= Critical.crit_xs a c + delta)%Q /\
+    ((Critical.crit_xs a c - delta <= obs)%Q \/
+     (c * (Critical.crit_xs a c - delta - obs) * (Critical.crit_xs a c - delta - obs) <= tol)%Q).
+Proof. exact Critical_proofs.crit_check_accepts_only. Qed.
+Print Assumptions C02_crit_check_accepts_only.
+
+(** ... and rejects (verdict 1) every value further away *)
+Theorem C02_crit_check_rejects :
+  forall a b c tol delta obs : Q,
+    (0 <= a)%Q -> (a < 1)%Q -> (0 < c)%Q -> (0 <= tol)%Q -> (0 <= delta)%Q -> ((1 - a) * (1 - a) == 4 * c * b)%Q ->
+    (obs < Critical.crit_xs a c - delta)%Q ->
+    (tol < c * (Critical.crit_xs a c - delta - obs) * (Critical.crit_xs a c - delta - obs))%Q ->
+    Critical.crit_check ((a, b, c), tol, delta, obs) = 1.
+Proof. exact Critical_proofs.crit_check_rejects. Qed.
+Print Assumptions C02_crit_check_rejects.
+
+(** ladders: a smaller tol cannot stop earlier, so its value is not smaller *)
+Theorem C02_ladder_step_monotone :
+  forall a b c : Q, (0 <= a)%Q -> (0 <= b)%Q -> (0 <= c)%Q ->
+  forall tol1 tol2 k1 k2, (tol2 <= tol1)%Q ->
+    (forall j, j < k1 -> ~ (Magnitude.qiter a b c (S j) - Magnitude.qiter a b c j <= tol1)%Q) ->
+    (Magnitude.qiter a b c (S k2) - Magnitude.qiter a b c k2 <= tol2)%Q ->
+    (Magnitude.qiter a b c k1 <= Magnitude.qiter a b c k2)%Q.
+Proof. exact Critical_proofs.ladder_step_monotone. Qed.
+Print Assumptions C02_ladder_step_monotone.
+
+Theorem C02_ladder_check_rejects :
+  forall delta t1 o1 t2 o2 r, (0 <= delta)%Q -> (o2 < o1 - delta)%Q ->
+    Critical.ladder_sorted ((t1, o1) :: (t2, o2) :: r) = true ->
+    Critical.ladder_check (delta, (t1, o1) :: (t2, o2) :: r) = 2.
+Proof. exact Critical_proofs.ladder_check_rejects. Qed.
+Print Assumptions C02_ladder_check_rejects.
